@@ -547,11 +547,12 @@ theorem loadFile_text (c : Codec) (fs : FS) (p eol : Str) (data : Bytes) (s : St
   simp [hstd, rdT, openIn_rt fs p data h, bind, Except.bind, hd]
 
 theorem loadFile_custom (c : Codec) (fs : FS) (p eol : Str) (data : Bytes) (s : Str) (hstd : isStdEol eol = false)
-    (hne : eol ≠ []) (h : fs p = some data) (hd : c.decode (replace (utf8Enc eol) lf data) = some s) :
+    (e : Bytes) (heol : c.enc eol = some e)
+    (hne : eol ≠ []) (h : fs p = some data) (hd : c.decode (replace e lf data) = some s) :
     loadFile c fs p ['t'] eol = .ok (.str s) := by
   unfold loadFile
   rw [show (['t'] : Str).contains 'b' = false by decide]
-  simp [hstd, rdB, openIn_rb fs p data h, bind, Except.bind, hd, hne]
+  simp [hstd, rdB, openIn_rb fs p data h, bind, Except.bind, hd, hne, heol]
 
 theorem loadFile_b (c : Codec) (fs : FS) (p eol : Str) (data : Bytes) (h : fs p = some data) :
     loadFile c fs p ['b'] eol = .ok (.bytes data) := by
